@@ -464,7 +464,7 @@ func (r *CaseResult) projBlock(n *Node, h uint64) string {
 			label = fmt.Sprintf("S%d", i)
 		}
 	}
-	if label == "SJunk" && len(sh.Signature) == 0 && sh.Signer.PubKey == nil && len(sh.Signer.Address) == 0 &&
+	if label == "SJunk" && len(sh.Signature) == 0 && sh.Signer.PubKey == nil && bytes.Equal(sh.Signer.Address, c.Genesis.ProposerAddress) &&
 		bytes.Equal(sh.Hash(), c.Headers[0].Hash()) {
 		label = "(fst (genesis_block g))"
 	}
